@@ -7,7 +7,8 @@
    each distance the exact squared distance to a vector that was set for that id.
    The proof needs nothing about the shape of the B-trees beyond "a lookup returns a
    cell that is stored in some leaf under exactly the key asked for" and "an insert
-   adds one cell", so it also covers stale/duplicate-key reads. *)
+   adds one cell", so it also covers stale/duplicate-key reads.
+   Witnesses: deleted nodes are returned; a reopen can change the result. *)
 From Coq Require Import Lia ZifyBool ZifyN ZifyNat Sorted Permutation.
 From NDB Require Import Vector.PageTree Vector.Hnsw.
 Open Scope nat_scope.
@@ -597,4 +598,26 @@ Proof.
   apply in_map_iff in Hin. destruct Hin as [[i d] [Ei Hi]]. cbn in Ei. subst i.
   destruct (search_sound _ _ _ _ _ _ _ E S) as [_ [_ [_ Hv]]].
   destruct (Hv _ _ Hi) as [v [Hv1 _]]. exists v. exact Hv1.
+Qed.
+
+(* K-C31-stale-vector: results are NOT always unchanged by reopening.  509 vectors, then
+   node 254 gets a new vector, then one more insert splits the (now full) leaf of the
+   vector tree between the two cells of node 254; lookups go to the right leaf and read
+   the OLD vector once the cache is gone. *)
+Definition stale_params : params := {| p_m := 2; p_efc := 2; p_efs := 40 |}.
+Definition stale_ops : list op :=
+  map (fun i => OInsert (N.of_nat i) [Z.of_nat (i mod 23); Z.of_nat (i / 23)] 0) (seq 0 509)
+  ++ [OInsert 254 [40; 40]%Z 0; OInsert 600 [(-3); (-3)]%Z 0].
+
+Lemma stale_before : result_ids stale_params stale_ops [40; 40]%Z 3 = Some [254; 505; 504]%N.
+Proof. vm_compute. reflexivity. Qed.
+Lemma stale_after : result_ids stale_params (stale_ops ++ [OReopen]) [40; 40]%Z 3 = Some [505; 504; 503]%N.
+Proof. vm_compute. reflexivity. Qed.
+
+Theorem reopen_refuted :
+  exists pr ops q k r1 r2,
+    result_ids pr ops q k = Some r1 /\ result_ids pr (ops ++ [OReopen]) q k = Some r2 /\ r1 <> r2.
+Proof.
+  exists stale_params, stale_ops, [40; 40]%Z, 3, [254; 505; 504]%N, [505; 504; 503]%N.
+  split; [exact stale_before|]. split; [exact stale_after|]. discriminate.
 Qed.
